@@ -133,11 +133,14 @@ impl<'a> Parser<'a> {
                         });
                     }
                 }
-                TokenKind::Program => todo!(),
-                TokenKind::Init => todo!(),
-                TokenKind::Memory => todo!(),
-                TokenKind::Def => todo!(),
-                TokenKind::Call => todo!(),
+                kind @ (TokenKind::Program
+                | TokenKind::Init
+                | TokenKind::Memory
+                | TokenKind::Def
+                | TokenKind::Call) => {
+                    let tok = self.get()?;
+                    return Err(tok.error(ParseErrorKind::UnsupportedStatement { kind }));
+                }
 
                 TokenKind::End => {
                     if let Some(kind) = end_token {
